@@ -1101,6 +1101,8 @@ class Interp:
         xv = ctx.deref(x)
         if isinstance(c, VPy) and isinstance(c.py, str) and isinstance(xv, VPy) and isinstance(xv.py, str):
             return z3.BoolVal(xv.py in c.py)          # substring test on concrete text
+        if isinstance(c, VStr) and isinstance(xv, VStr):
+            return z3.Contains(c.t, xv.t)             # `x in s` on two strings is the substring test
         self.unsupported(node, "membership in %r" % (c,))
 
     def ex_BinOp(self, e):
